@@ -41,6 +41,11 @@ INT_M = {"atlas": "nTrk", "cms_aod": "nSeg", "cms_miniaod": "nSeg"}
 def spec_strategy(draw, backend, idx):
     nparams = draw(st.integers(0, 4))
     is_method = draw(st.integers(0, 3)) == 0
+    # a method that returns a collection of (const pointers to) objects - ATLAS: the jet's constituents
+    objcoll = backend == "atlas" and draw(st.integers(0, 6)) == 0
+    if objcoll:
+        is_method = True
+        nparams = min(nparams, 1)
     # a method template mentions obj->pt(): a parameter called pt would (correctly) be replaced there too
     pool = [p_ for p_ in PARAM_POOL if not (is_method and p_ == "pt")]
     params = draw(st.lists(st.sampled_from(pool), min_size=nparams, max_size=nparams, unique=True))
@@ -48,8 +53,10 @@ def spec_strategy(draw, backend, idx):
     res = draw(st.sampled_from(["result", "result", "my_r", "res_x", "result_1", "out"]))
     while res in params or res == mobj:
         res = res + "_r"
-    ret_coll = draw(st.integers(0, 4)) == 0
+    ret_coll = draw(st.integers(0, 4)) == 0 or objcoll
     ret = draw(st.sampled_from(["double", "double", "float", "int"])) if not ret_coll else "double"
+    if objcoll:
+        ret = draw(st.sampled_from(["const xAOD::TrackParticle*", "const xAOD::TrackParticle *"]))
     nlines = draw(st.integers(1, 3))
     temps = []
     code = []
@@ -77,7 +84,10 @@ def spec_strategy(draw, backend, idx):
         code.append(f"double {tname} = {e.replace('__OBJPT__', mobj + arrow + 'pt()' if mobj else '0')};")
         meaning.append((tname, e))
         temps.append(tname)
-    if ret_coll:
+    if objcoll:
+        code.append(f"std::vector<const xAOD::TrackParticle*> {res}; for (auto c_ : {mobj}{arrow}constituents()) {res}.push_back(c_);")
+        meaning.append((res, "__OBJ__.constituents()"))
+    elif ret_coll:
         e1, e2 = expr(), expr()
         code.append(f"std::vector<double> {res}; {res}.push_back({e1.replace('__OBJPT__', (mobj or '') + arrow + 'pt()')}); {res}.push_back({e2.replace('__OBJPT__', (mobj or '') + arrow + 'pt()')});")
         meaning.append((res, f"[{e1}, {e2}]"))
@@ -98,7 +108,7 @@ def spec_strategy(draw, backend, idx):
     if mobj:
         md["method_object"] = mobj
         md["instance_object"] = "xAOD::Jet_v1"
-    return {"md": md, "name": name, "params": params, "meaning": meaning, "res": res, "is_method": is_method, "ret_coll": ret_coll, "ret": md["return_type"], "includes": includes, "mobj": mobj}
+    return {"md": md, "name": name, "params": params, "meaning": meaning, "res": res, "is_method": is_method, "ret_coll": ret_coll, "ret": md["return_type"].replace(" *", "*"), "includes": includes, "mobj": mobj, "objcoll": objcoll}
 
 
 def python_meaning(spec):
@@ -108,9 +118,12 @@ def python_meaning(spec):
         env = {p: linq.force(a) for p, a in zip(params, args)}
         if obj is not None:
             env["__OBJPT__"] = obj.pt()
+            env["__OBJ__"] = obj
         for name, e in spec["meaning"]:
             env[name] = eval(e, {"__builtins__": {}}, env)
         r = env[spec["res"]]
+        if spec.get("objcoll"):
+            return r
         if spec["ret_coll"]:
             return linq.Vec([float(x) for x in r], obj.rt.lazy if obj is not None else _rt_mode[0])
         return float(r) if spec["ret"] != "int" else float(r)
@@ -173,7 +186,9 @@ def cases(draw, backend):
     for _ in range(ncalls):
         s = draw(st.sampled_from(specs))
         c = call(s)
-        if s["ret_coll"]:
+        if s.get("objcoll"):
+            c = draw(st.sampled_from([f"{c}.Select(lambda c: c.pt()).Sum()", f"{c}.Count()", f"{c}.Where(lambda c: c.pt() > 1).Select(lambda c: c.d0()).Sum()"]))
+        elif s["ret_coll"]:
             c = draw(st.sampled_from([f"{c}.Sum()", f"{c}.Count()", f"{c}.Select(lambda v: v * 2).Sum()"]))
         cols.append(c)
     filt = None
@@ -374,6 +389,8 @@ def worker(payload):
             labels.append("method" if s["is_method"] else "function")
             if s["ret_coll"]:
                 labels.append("returns-collection")
+            if s.get("objcoll"):
+                labels.append("returns-object-collection")
             if s["res"] != "result":
                 labels.append("custom-result-name")
         stats.case(jdump([backend, c["text"]]), nt, sorted(set(labels)), {"backend": backend, "spec": c["specs"][0]["md"], "query": c["text"][-260:]})
